@@ -1,4 +1,81 @@
-(* C11 -- placeholder until the proofs land (replaced below) *)
-From AnyTLS Require Import Conc.
-Theorem C11_placeholder : forall s t, step_or_skip s t = match step s t with Some s' => s' | None => s end.
-Proof. reflexivity. Qed.
+(* C11 -- concurrent writers cannot scramble the wire.
+   Model: Model/Conc.v (small-step interleaving semantics of write_frame / open_stream / close at the
+   granularity of the scheduling hook points). All theorems quantify over every program list, every
+   initial buffering mode and pending buffer, and EVERY schedule (list of task ids of any length). *)
+From Coq Require Import List NArith.
+From AnyTLS Require Import Bytes Cmd Generated Frame Conc ConcInv ConcLin.
+Import ListNotations.
+
+(* writer-lock discipline in every reachable state: the holder is exactly the task inside its
+   critical section, the FIFO queue holds exactly the parked tasks, no duplicates *)
+Theorem C11_lock_discipline : forall progs buf pend sched,
+  Inv (run (init progs buf pend) sched).
+Proof. intros. apply run_inv. apply inv_init. Qed.
+Print Assumptions C11_lock_discipline.
+
+Theorem C11_mutual_exclusion : forall progs buf pend sched t1 t2,
+  let s := run (init progs buf pend) sched in
+  holds_pc (pcof s t1) = true -> holds_pc (pcof s t2) = true -> t1 = t2.
+Proof. intros. eapply holder_unique; eauto. apply run_inv. apply inv_init. Qed.
+Print Assumptions C11_mutual_exclusion.
+
+(* contiguity: a step changes the wire only by appending one whole burst (pending ++ [frame], taken
+   under the lock), and only the lock holder does so *)
+Theorem C11_burst_atomic : forall s t s',
+  Inv s -> step s t = Some s' ->
+  wire s' = wire s \/
+  exists k held, pcof s t = PW4 k held /\ wr s = Some t /\ wire s' = wire s ++ [((pkt s + 1)%N, held)].
+Proof. exact step_wire. Qed.
+Print Assumptions C11_burst_atomic.
+
+(* nothing dropped, duplicated or reordered: while the transport has not failed, the frames on the wire,
+   followed by the burst in flight and the pending buffer, are exactly the linearisation log *)
+Theorem C11_wire_is_log : forall progs buf pend sched,
+  let s := run (init progs buf pend) sched in
+  calm s -> flat_wire s ++ inflight s ++ pending s = lin s.
+Proof. intros. apply (run_lin_ok sched _ (inv_init progs buf pend) (lin_ok_init progs buf pend)). assumption. Qed.
+Print Assumptions C11_wire_is_log.
+
+(* the log is append-only, and a task appends exactly the frame of the write_frame call it is executing:
+   since a task executes its calls one after the other, its frames enter the log -- hence the wire -- in the
+   order it submitted them; a stream's SYN is logged inside open_stream, before the opener can submit data *)
+Theorem C11_log_append_only : forall progs buf pend sched,
+  exists l, lin (run (init progs buf pend) sched) = pend ++ l.
+Proof. intros. apply (run_lin_grows sched _ (inv_init progs buf pend)). Qed.
+Print Assumptions C11_log_append_only.
+
+Theorem C11_linearisation_point : forall s t s',
+  Inv s -> step s t = Some s' ->
+  lin s' = lin s \/
+  exists k f, (pcof s t = PW1 k f \/ pcof s t = PW3 k f) /\ lin s' = lin s ++ [(t, f)].
+Proof. exact step_lin_point. Qed.
+Print Assumptions C11_linearisation_point.
+
+(* the client's settings frame (buffered by start_client before any other task exists) is the first
+   frame of the session *)
+Theorem C11_settings_first : forall progs x pend sched,
+  let s := run (init progs true (x :: pend)) sched in
+  calm s -> forall y rest, flat_wire s = y :: rest -> y = x.
+Proof. exact settings_first. Qed.
+Print Assumptions C11_settings_first.
+
+(* ordering clause of C05: the n-th burst on the transport was numbered n (so padding line n shaped it) *)
+Theorem C11_packet_order : forall progs buf pend sched n i h,
+  let s := run (init progs buf pend) sched in
+  calm s -> nth_error (wire s) n = Some (i, h) -> i = (client_pkt_start + N.of_nat n + 1)%N.
+Proof.
+  intros progs buf pend sched n i h s C.
+  apply (proj2 (run_idx_ok client_pkt_start sched _ (inv_init progs buf pend) (idx_ok_init progs buf pend) C)).
+Qed.
+Print Assumptions C11_packet_order.
+
+(* non-vacuity: two openers racing on a fresh session with pre-emption in the middle of both opens *)
+Example C11_nonvacuous :
+  let progs := [[]; [COpen; CDisableBuf; CData [1]]; [COpen; CDisableBuf; CData [2]]] in
+  let settings := (99%nat, {| fcmd := Settings; fsid := 0; fdata := [] |}) in
+  let s := run (init progs true [settings])
+               [1;1;1;1;1;1;1;2;2;2;2;2;2;2;1;2;1;2;1;2;1;2;1;2;1;2;1;2;1;2]%nat in
+  calm s /\ map snd (flat_wire s) =
+    [ {| fcmd := Settings; fsid := 0; fdata := [] |}; syn_frame 1; syn_frame 2;
+      psh_frame 1 [1]; psh_frame 2 [2] ]%N /\ map fst (wire s) = [1; 2; 3]%N.
+Proof. vm_compute. repeat split; reflexivity. Qed.
